@@ -743,15 +743,24 @@ func doReplay(path string) {
 	rw := &rworld{dir: tmp}
 	defer rw.close()
 	rankMode := false
+	ar := &areplay{dir: tmp}
+	acceptMode := false
 	for sc.Scan() {
 		line := strings.TrimSpace(sc.Text())
 		if line == "" || strings.HasPrefix(line, "#") {
 			continue
 		}
 		if strings.HasPrefix(line, "rschema ") {
-			rankMode = true
+			rankMode, acceptMode = true, false
 		} else if strings.HasPrefix(line, "schema ") {
-			rankMode = false
+			rankMode, acceptMode = false, false
+		} else if strings.HasPrefix(line, "aschema ") {
+			rankMode, acceptMode = false, true
+		}
+		if acceptMode {
+			fmt.Fprintln(out, ar.line(line))
+			out.Flush()
+			continue
 		}
 		if rankMode {
 			fmt.Fprintln(out, rw.replayLine(line))
@@ -807,8 +816,26 @@ func main() {
 	nsearch := flag.Int("searches", 14, "queries after each batch")
 	nx := flag.Int("searchx", 0, "compose mode: full SearchPoints requests (select, sort, offset, limit) after each batch, written with the whole history to <out>/compose/")
 	nrank := flag.Int("rank", 0, "rank mode: this many extra histories on shards with a filter, a vectorFlat and a text index (rank.go), written to <out>/rank/")
+	naccept := flag.Int("accept", 0, "acceptance mode: this many extra histories of batches on the boundary of `Acceptable` (accept.go; refused batches run in child processes), written to <out>/accept/")
+	acceptBatches := flag.Int("acceptbatches", 12, "batches per acceptance history")
+	achild := flag.String("acceptchild", "", "internal: replay this file (accepted history + one batch) on a fresh shard and print the verdict")
+	aprobe := flag.String("acceptprobe", "", "internal: run one pinned-assumption probe")
+	aworker := flag.String("acceptworker", "", "internal: run acceptance history -accepth and write its lines (JSON) to this file")
+	accepth := flag.Int("accepth", 0, "internal: the history number of -acceptworker")
 	flag.Parse()
 	zerolog.SetGlobalLevel(zerolog.Disabled)
+	if *achild != "" {
+		acceptChild(*achild)
+		return
+	}
+	if *aprobe != "" {
+		acceptProbe(*aprobe)
+		return
+	}
+	if *aworker != "" {
+		acceptWorker(*seed, *accepth, *acceptBatches, *aworker)
+		return
+	}
 	if *replay != "" {
 		doReplay(*replay)
 		return
@@ -830,6 +857,9 @@ func main() {
 	side := g.sideEmptyString()
 	if *nrank > 0 {
 		runRank(*seed, *dir, tmp, *nrank, *batches, 4, o)
+	}
+	if *naccept > 0 {
+		runAccept(*seed, *dir, tmp, *naccept, *acceptBatches, o)
 	}
 	if g.co != nil {
 		g.co.Close(map[string]any{"rule": "distinct op lines that are write batches, non-empty bucket dumps, or searches / full requests with a non-empty answer"})
